@@ -510,6 +510,19 @@ impl CaseInput for ReqCase {
                     oracle.push(("C02:body-creds".into(), format!("client_id x{nid}, client_secret x{nsec}")));
                 }
             }
+            // "exactly one place": the request carries no header besides Accept, Content-Type and (Basic) Authorization,
+            // each at most once — a credential copied into any other header would travel in a second place
+            {
+                let mut names: Vec<String> = rq.headers().keys().map(|k| k.as_str().to_string()).collect();
+                names.sort();
+                let extra: Vec<&String> = names.iter().filter(|n| !["accept", "content-type", "authorization"].contains(&n.as_str())).collect();
+                if !extra.is_empty() || rq.headers().len() != names.len() {
+                    oracle.push(("C02:other-headers".into(), format!("headers {:?} ({} values)", names, rq.headers().len())));
+                }
+                if rq.method() != http::Method::POST {
+                    oracle.push(("C01:method".into(), format!("{}", rq.method())));
+                }
+            }
             if let Some(q) = rq.uri().query() {
                 let endpoint_q = url::Url::parse(&canon).unwrap().query().unwrap_or("").to_string();
                 if q != endpoint_q {
